@@ -31,7 +31,7 @@ def impl_oracle(c):
         return kind, "%s: %s" % (c["op"], o["crash"][:160])
     if c["op"] == "file":
         return J.file_oracle(c)
-    if c["op"] in ("reuse", "fhist"):
+    if c["op"] in ("reuse", "fhist", "bigrt"):
         return J.usage_oracle(c)
     if c["op"] == "gort":
         r = o.get("res")
@@ -85,7 +85,7 @@ def run(ck):
                 ck.coverage["go_values_json_equal_only"] = ck.coverage.get("go_values_json_equal_only", 0) + 1
         if c["op"] == "runes":
             ck.coverage["code_points_swept"] = ck.coverage.get("code_points_swept", 0) + (c["obs"].get("n") or 0)
-        ck.count(c["stream"] + ":" + c["op"], key=(c["op"], c["in"], c.get("pre")), trivial=trivial)
+        ck.count(c["stream"] + ":" + c["op"], key=(c["op"], c["in"], c.get("pre"), c.get("cut")), trivial=trivial)
         bad = impl_oracle(c)
         if bad:
             ck.violation("impl:%s:%s" % (bad[0], c["stream"]), bad[1],
@@ -135,6 +135,10 @@ def run(ck):
              "the same file (texts shrinking, growing, of equal length, scalars over objects, empty containers), each "
              "followed by a byte comparison of the file with Marshal's output and by ReadFile; over a fresh path, a "
              "file of mode 0600 / 0444, a longer file WriteFile did not write, a symbolic link to a file, a dangling "
-             "link; a directory and a missing directory must be errors. Trivial = the value "
+             "link; a directory and a missing directory must be errors. Single tokens of the sizes the source names (every "
+             "integer >= 256 in lexing/, jsonx/, strtoken/ as extracted by the translator: l-3 .. l+1 and 2l+1) and of "
+             "64 KiB, 1 MiB-1, 1 MiB, 1 MiB+1, 3 MiB: a string, an all-escapes string, a quoted key, a bare key, a "
+             "[]byte (one base64 string), an integer literal (up to 128 KiB) through Marshal -> Unmarshal and "
+             "WriteFile -> ReadFile (implementation only). Trivial = the value "
              "nil; distinct = distinct (operation, json.Marshal of the value).",
         assumptions=["values are those json.Marshal can encode", "unicode.IsPrint(0x0A) = false"])
